@@ -200,7 +200,8 @@ def parse_cases(lines):
 
 def driver(args, timeout=3000):
     """Runs the driver; a hang of the code under test comes back as {"hang": ...}."""
-    return vlib.run_driver("framing", args, timeout=timeout)
+    # development hook: VERIF_FRAMING_BIN = a driver binary built against another source tree
+    return vlib.run_driver(os.environ.get("VERIF_FRAMING_BIN", "framing"), args, timeout=timeout)
 
 
 def observe(trace_path):
@@ -256,7 +257,11 @@ def generator_job(d, g, tier, seed):
     """TLC enumerates the behaviours of one generator; the driver replays them on the real code (twice: all
     cases, keeping the traces of those that differ; and a sample with all traces for the observer)."""
     name = write_generator(d, g)
-    res = run_tlc(d, name + ".tla", name + ".cfg", os.path.join(d, name + ".out"), workers=4, timeout=2400)
+    if os.environ.get("VERIF_FRAMING_REUSE") and os.path.exists(os.path.join(d, name + ".cases")):
+        # development hook: skip TLC, replay the cases of the previous run
+        res = dict(ok=True, distinct=0, generated=0, left=0, wall_s=0, case_lines=[json.dumps("CASE " + l.strip()) for l in open(os.path.join(d, name + ".cases")) if l.strip()])
+    else:
+        res = run_tlc(d, name + ".tla", name + ".cfg", os.path.join(d, name + ".out"), workers=4, timeout=2400)
     if not res["ok"]:
         return ("gen", g, name, res, None, None, None, None)
     cases = parse_cases(res.pop("case_lines"))
@@ -291,7 +296,8 @@ def model_check_and_replay(tier, seed, verdict, cov, drifts, samples):
     sample_traces = []
     with ThreadPoolExecutor(max_workers=3) as pool:
         futs = [pool.submit(generator_job, d, g, tier, seed) for g in generators(tier, seed)]
-        futs += [pool.submit(design_job, name) for name in DESIGN[tier]]
+        if not os.environ.get("VERIF_FRAMING_REUSE"):
+            futs += [pool.submit(design_job, name) for name in DESIGN[tier]]
         results = [f.result() for f in futs]
     for r in results:
         if r[0] == "design":
@@ -397,9 +403,11 @@ def random_behaviours(tier, seed, verdict, cov, drifts, samples, sample_traces):
         samples.append(dict(generator="random", case=dict(ev=all_recs[e["first_record"] - 1:e["first_record"] - 1 + e["records"]])))
 
 
-def selftest(seed, cov):
-    """The binding binds: (1) one corrupted prediction makes the comparison fail; (2) one corrupted real
-    trace makes the observer fail."""
+def selftest(seed, verdict, cov, drifts):
+    """The binding binds: (1) the observer accepts a hand-written correct trace and rejects it once one value is
+    corrupted (pure specification, independent of the code under test); (2) one corrupted prediction makes the
+    comparison with the real code fail.  If the real code disagrees with the hand-written cases themselves, that is
+    data for the observer (VIOLATION or DRIFT), not a tool error."""
     d = vlib.workdir("framing/selftest")
     ok = {}
     case = {"ev": [{"t": "reset", "m": "pk", "in": [5, 22], "out": []}, {"t": "ext", "n": 4}, {"t": "nxt", "f": 0}, {"t": "spw", "n": 2}, {"t": "nxt", "f": 1},
@@ -409,33 +417,42 @@ def selftest(seed, cov):
                   {"t": "rdy", "s": [], "fs": [], "wn": 0, "wm": 1, "ev": [], "x": 0, "r": "ok", "e": ""},
                   {"t": "sta", "m": 1, "r": "ok"},
                   {"t": "fls", "s": [3, 0], "fs": [], "wn": 3, "wm": 1, "ev": ["w0"], "x": 0, "r": "err", "e": "wz"}]}
-    good = os.path.join(d, "good.cases")
-    with open(good, "w") as f:
-        f.write(json.dumps(case) + "\n" + json.dumps(tok) + "\n")
-    s = driver(["replay", "--cases", good, "--traces", os.path.join(d, "good.ndjson"), "--all-traces"])
-    ok["hand_written_cases_agree"] = s.get("mismatching_cases") == 0 and s.get("cases") == 2
-    v, _ = observe(os.path.join(d, "good.ndjson"))
-    ok["observer_accepts_real_traces"] = v == []
-    # (1) corrupt one predicted value
-    bad = json.loads(json.dumps(case))
-    bad["ev"][7]["f"] = 1
-    bad2 = json.loads(json.dumps(tok))
-    bad2["ev"][4]["wn"] = 4
-    badf = os.path.join(d, "bad.cases")
-    with open(badf, "w") as f:
-        f.write(json.dumps(bad) + "\n" + json.dumps(bad2) + "\n")
-    s = driver(["replay", "--cases", badf, "--traces", os.path.join(d, "bad.ndjson")])
-    idx = read_idx(os.path.join(d, "bad.ndjson"))
-    ok["corrupted_prediction_detected"] = s.get("mismatching_cases") == 2 and [e["first_mismatch"] for e in idx] == [7, 4]
-    # (2) corrupt the real trace: the second frame is reported twice / the flush returns Ok early
-    recs = vlib.read_ndjson(os.path.join(d, "good.ndjson"))
-    recs[8] = {"t": "nxt", "f": 2}
-    recs[-1] = dict(recs[-1], r="ok", ev=[], e="")
+    # (1) observer on hand-written traces
+    recs = case["ev"] + tok["ev"]
+    t1 = os.path.join(d, "handwritten.ndjson")
+    with open(t1, "w") as f:
+        f.write("\n".join(json.dumps(r) for r in recs) + "\n")
+    v, _ = observe(t1)
+    ok["observer_accepts_correct_trace"] = v == []
+    recs = json.loads(json.dumps(recs))
+    recs[8] = {"t": "nxt", "f": 2}                      # the second frame comes out twice
+    recs[-1] = dict(recs[-1], r="ok", ev=[], e="")      # the flush returns Ok with 4 of 7 bytes unwritten
     t2 = os.path.join(d, "corrupt.ndjson")
     with open(t2, "w") as f:
         f.write("\n".join(json.dumps(r) for r in recs) + "\n")
     v, _ = observe(t2)
-    ok["observer_rejects_corrupted_traces"] = sorted(i for (i, _) in v) == [9, len(recs)]
+    ok["observer_rejects_corrupted_trace"] = sorted(i for (i, _) in v) == [9, len(recs)]
+    # (2) comparison with the real code
+    good = os.path.join(d, "good.cases")
+    with open(good, "w") as f:
+        f.write(json.dumps(case) + "\n" + json.dumps(tok) + "\n")
+    gtrace = os.path.join(d, "good.ndjson")
+    s = driver(["replay", "--cases", good, "--traces", gtrace])
+    if "hang" in s or s.get("mismatching_cases"):
+        ok["corrupted_prediction_detected"] = "skipped: the code under test disagrees with the hand-written cases"
+        if "hang" not in s:
+            judge(verdict, cov, "hand-written", gtrace, lambda no: [case, tok][no] if 0 <= no < 2 else None, drifts)
+    else:
+        bad = json.loads(json.dumps(case))
+        bad["ev"][7]["f"] = 1
+        bad2 = json.loads(json.dumps(tok))
+        bad2["ev"][4]["wn"] = 4
+        badf = os.path.join(d, "bad.cases")
+        with open(badf, "w") as f:
+            f.write(json.dumps(bad) + "\n" + json.dumps(bad2) + "\n")
+        s = driver(["replay", "--cases", badf, "--traces", os.path.join(d, "bad.ndjson")])
+        idx = read_idx(os.path.join(d, "bad.ndjson"))
+        ok["corrupted_prediction_detected"] = s.get("mismatching_cases") == 2 and [e["first_mismatch"] for e in idx] == [7, 4]
     cov["selftest"] = ok
     if not all(ok.values()):
         raise vlib.ToolError(f"self test of the C14 binding failed: {ok}")
@@ -455,7 +472,7 @@ def run(prop, tier, seed):
     drifts = []
     samples = []
     build()
-    selftest(seed, cov)
+    selftest(seed, verdict, cov, drifts)
     sample_traces = model_check_and_replay(tier, seed, verdict, cov, drifts, samples)
     random_behaviours(tier, seed, verdict, cov, drifts, samples, sample_traces)
     finish(prop, tier, seed, verdict, cov, drifts, samples, t0)
